@@ -69,5 +69,15 @@ CLAIMED = {
         "Bounded shapes (see evidence bounds). The solver's part is small here: leaves are opaque to the code; the exhaustive part is the fork-enumerated shape tree.",
         "3 C18",
     ),
+    "C14": (
+        "The shared mutable state written at call time is found by a write monitor (attributes of objects that pre-exist the call). For every registered German method object one caller with a symbolic account runs against an adversary: before each of its accesses to a shared location another real thread overwrites that location with an arbitrary value 0..10; the solver shows the caller's outcome equals its solo outcome on every path. For methods with few paths two real logical threads with two symbolic accounts run under a baton scheduler whose switch points are the shared accesses and whose choices are engine forks (all schedules). The same adversary harness runs through IBAN(..., validate_bban=True). Non-German algorithm objects must write nothing at call time.",
+        "2 logical threads (3 in the thorough tier for two methods); switch points = reads/writes of shared locations (thread-local steps commute); CPython-internal atomicity, third-party locks and registries (read-only: C15) are outside.",
+        "3 C14",
+    ),
+    "C15": (
+        "Frame: all API calls in the harness run under the write monitor and must not write to objects reachable from the registries or to previously created value objects. Havoc: for every German method object the scratch attributes are set to two independent fresh symbolic values and the same symbolic account must get the same verdict. Pairs: g(y) on pristine state (own writes undone), then f(x), then g(y) again must agree, for same-country and cross-country (equal BBAN length) parse-and-observe calls with symbolic texts, and for BICs.",
+        "Histories longer than two calls follow by induction from frame + havoc, not by enumeration; lazy initialisation inside re/pycountry is environment.",
+        "3 C15",
+    ),
 }
 NOT_APPLICABLE = {}
